@@ -20,6 +20,8 @@ package sql
 //     pinned instant.
 
 import (
+	"errors"
+	"context"
 	"database/sql"
 	"fmt"
 	"io"
@@ -970,6 +972,130 @@ func TestVerifC14(t *testing.T) {
 
 	// one statement TEXT holding several statements (the driver executes them all)
 	var splitOps, splitImpl []string
+	// checkMulti: everything that is checked of ONE text holding several statements
+	var checkMulti func(text string, schemaKnown bool)
+	checkMulti = func(text string, schemaKnown bool) {
+		// the model splits with the parser as a parameter: it is told which runs of pieces the parser accepts
+		{
+			ids := map[string]int{}
+			toks := func(t string) string { return c14Toks(t, ids) }
+			segs := c14Pieces(text)
+			var accepted []string
+			seen := map[string]bool{}
+			for i := range segs {
+				for j := i; j < len(segs); j++ {
+					cand := strings.Join(segs[i:j+1], ";")
+					if _, err := rsql.NewParser(strings.NewReader(cand)).ParseStatement(); err == nil {
+						if l := toks(cand); !seen[l] {
+							seen[l] = true
+							accepted = append(accepted, l)
+						}
+					}
+				}
+			}
+			acc := "-"
+			if len(accepted) > 0 {
+				acc = strings.Join(accepted, "|")
+			}
+			splitOps = append(splitOps, "split "+toks(text)+" "+acc)
+			parts, ok := splitStatements(text)
+			var out []string
+			for _, pt := range parts {
+				kind := "S:"
+				if pt.parsed == nil {
+					kind = "R:"
+					rep.Count("split:piece-no-statement-starts-at")
+				} else if strings.Contains(toks(text[pt.start:pt.end]), "s") {
+					rep.Count("split:statement-holding-semicolons")
+				}
+				out = append(out, kind+toks(text[pt.start:pt.end]))
+			}
+			switch {
+			case !ok:
+				splitImpl = append(splitImpl, "split-gave-up")
+			case len(out) == 0:
+				splitImpl = append(splitImpl, "-")
+			default:
+				splitImpl = append(splitImpl, strings.Join(out, "|"))
+			}
+		}
+		st := []*proto.Statement{{Sql: text}}
+		replay := map[string]interface{}{"sql": text}
+		if err := Process(st, true, true); err != nil {
+			rep.Fail("process-error", fmt.Sprintf("Process(%q): %v", text, err), replay)
+			return
+		}
+		replay["replicated"] = st[0].Sql
+		// INDEPENDENT of any parser: executed twice on fresh databases, the replicated text leaves the same
+		// content (a random() still in it - in a statement SQLite executes - would not)
+		if schemaKnown && strings.Contains(text, "TEMPORARY TRIGGER") && strings.Contains(strings.ToLower(st[0].Sql), "random()") {
+			// the parser does not know CREATE TEMPORARY TRIGGER: the piece is passed through unchanged, by design,
+			// with the call in its first body statement
+			rep.Count("multi:call-inside-a-piece-the-parser-rejects")
+		} else if schemaKnown {
+			d1, e1 := c14RunFresh(st[0].Sql)
+			d2, e2 := c14RunFresh(st[0].Sql)
+			if errors.Is(e1, context.DeadlineExceeded) || errors.Is(e2, context.DeadlineExceeded) {
+				rep.Count("multi:sqlite-run-abandoned-after-20s")
+				d1, d2 = "", ""
+			} else if e1 != nil || e2 != nil {
+				rep.Count("multi:sqlite-stops-at-an-error") // what ran before the error is compared all the same
+			}
+			switch {
+			case d1 != d2:
+				rep.Fail("multi-statement-text:replicated-text-not-deterministic", fmt.Sprintf("%q is replicated as %q, which executed twice on SQLite gives %s and %s", text, st[0].Sql, d1, d2), replay)
+			default:
+				rep.Count("multi:executed-twice-on-sqlite-same-content")
+			}
+		}
+		origTexts, orig, ok := c14ParseAll(text)
+		if !ok || len(orig) < 2 {
+			rep.Count("multi:parser-rejects")
+			return
+		}
+		rep.Count("multi-statement-text")
+		if len(origTexts) != len(strings.Split(text, ";")) {
+			rep.Count("multi-statement-text:with-empty-statements")
+		}
+		outTexts, out, ok := c14ParseAll(st[0].Sql)
+		if !ok {
+			rep.Fail("multi-statement-text:output-unparsable", fmt.Sprintf("%q -> %q", text, st[0].Sql), replay)
+			return
+		}
+		if len(out) != len(orig) {
+			rep.Fail("multi-statement-text:statements-lost", fmt.Sprintf("a text of %d statements is replicated as %d: %q -> %q", len(orig), len(out), text, st[0].Sql), replay)
+			return
+		}
+		anyTarget := false
+		var left []string
+		hadNondet := false
+		for k := range orig {
+			bt, _ := c14Record(orig[k])
+			at, _ := c14Record(out[k])
+			if c14HasTargetCall(bt) {
+				anyTarget = true
+			} else if outTexts[k] != origTexts[k] {
+				rep.Fail("multi-statement-text:untouched-statement-reprinted", fmt.Sprintf("statement %d of %q needs no rewriting but is replicated as %q", k, text, outTexts[k]), replay)
+			}
+			var ndB []string
+			c14Nondet(bt, false, true, true, &ndB)
+			hadNondet = hadNondet || len(ndB) > 0
+			c14Nondet(at, false, true, true, &left)
+		}
+		rep.Case(text, hadNondet)
+		if len(left) > 0 {
+			rep.Fail(c14Sig("multi-statement-text:left", left, nil), fmt.Sprintf("%q is replicated as %q, still containing %v", text, st[0].Sql, left), replay)
+		}
+		if !anyTarget && st[0].Sql != text {
+			rep.Fail("multi-statement-text:changed-without-calls", fmt.Sprintf("%q -> %q", text, st[0].Sql), replay)
+		}
+		// the query / explain markers are those of the first statement, as for a single statement
+		first := []*proto.Statement{{Sql: origTexts[0]}}
+		if err := Process(first, true, true); err == nil && (first[0].ForceQuery != st[0].ForceQuery || first[0].SqlExplain != st[0].SqlExplain) {
+			rep.Fail("multi-statement-text:markers", fmt.Sprintf("%q: ForceQuery=%v SqlExplain=%v, its first statement alone gets %v %v", text, st[0].ForceQuery, st[0].SqlExplain, first[0].ForceQuery, first[0].SqlExplain), replay)
+		}
+		}
+
 	multi := vfScale(300, 60000)
 	for i := 0; i < multi+3; i++ {
 		g := &c14Gen{r: r, forms: map[string]bool{}}
@@ -1011,72 +1137,72 @@ func TestVerifC14(t *testing.T) {
 		} else if i%9 == 5 {
 			text = strings.Replace(text, ";", "; ;", 1)
 		}
-		splitOps = append(splitOps, "split "+c14Letters(text))
-		{
-			var segs []string
-			for _, sg := range splitStatements(text) {
-				if l := c14Letters(sg); l != "-" { // a comment-only piece holds no token
-					segs = append(segs, l)
+		checkMulti(text, false)
+	}
+
+	// identifiers spelled like keywords (SQLite and the parser take `begin`, `end` as column and table
+	// names), in trigger bodies and heads; EXPLAIN CREATE TRIGGER; statements SQLite knows and the parser
+	// does not. All over the schema of c14RunFresh, so that SQLite itself is the judge.
+	{
+		heads := []string{"AFTER INSERT ON t", "AFTER UPDATE OF begin, end ON ev", "BEFORE DELETE ON ev", "AFTER INSERT ON end",
+			"AFTER UPDATE ON ev WHEN new.a > 0", "AFTER INSERT ON ev WHEN CASE WHEN 1 THEN 1 END"}
+		bodies := []string{"INSERT INTO ev(begin, end) VALUES(1, 2)", "UPDATE ev SET a = 1 WHERE end > 5", "SELECT end FROM ev",
+			"INSERT INTO end(a) VALUES(1)", "INSERT INTO ev(id, a) VALUES(1, 1) ON CONFLICT(id) DO NOTHING", "SELECT CASE WHEN 1 THEN 2 END",
+			"UPDATE ev SET a = CASE WHEN end > 1 THEN begin ELSE 0 END WHERE begin < end", "DELETE FROM ev WHERE begin = 1 AND end = 2",
+			"INSERT INTO t(a) VALUES(1)", "SELECT begin, end FROM ev ORDER BY end", "INSERT INTO t(a) SELECT end FROM ev LIMIT 2",
+			"SELECT 'end; begin', \"end\" FROM ev", "SELECT 1 /* end; */", "INSERT INTO ev(a, begin) VALUES(random(), 3)"}
+		creates := []string{"CREATE TRIGGER tr ", "CREATE TRIGGER IF NOT EXISTS tr ", "EXPLAIN CREATE TRIGGER tr ", "create trigger \"end\" ",
+			"CREATE TEMP TRIGGER tr ", "CREATE TEMPORARY TRIGGER tr "}
+		others := []string{"INSERT INTO t(a) VALUES(random())", "INSERT INTO ev(begin, end) VALUES(random(), 2)", "UPDATE ev SET a = random() WHERE end > 5",
+			"INSERT INTO end(a) VALUES(random())", "SELECT end FROM ev", "CREATE TEMP TABLE IF NOT EXISTS x(a)", "CREATE TEMPORARY TABLE IF NOT EXISTS y(begin, end)",
+			"INSERT INTO t(a) VALUES(1) -- end;\n", "SELECT [a;b] FROM (SELECT 1 AS [a;b])", "INSERT INTO ev(a) VALUES(random()) RETURNING end", "EXPLAIN SELECT end, random() FROM ev"}
+		fixed := []string{}
+		for _, x := range bodies[:5] { // review R5, 2.1
+			fixed = append(fixed, "CREATE TRIGGER tr AFTER INSERT ON t BEGIN "+x+"; SELECT 1; END; INSERT INTO t(a) VALUES(random())")
+		}
+		fixed = append(fixed,
+			"CREATE TRIGGER tr AFTER UPDATE OF begin, end ON ev BEGIN SELECT 1; SELECT 2; END; INSERT INTO t(a) VALUES(random())",
+			"EXPLAIN CREATE TRIGGER tr AFTER INSERT ON t BEGIN SELECT 1; SELECT 2; END; INSERT INTO t(a) VALUES(random())",
+			"CREATE TEMPORARY TRIGGER tr AFTER INSERT ON t BEGIN SELECT 1; SELECT 2; END; INSERT INTO t(a) VALUES(random())",
+			"CREATE TEMP TABLE x(a); INSERT INTO t(a) VALUES(random())",
+			"BEGIN; CREATE TRIGGER tr AFTER INSERT ON t BEGIN SELECT end FROM ev; END; INSERT INTO t(a) VALUES(random()); END")
+		for i := 0; i < len(fixed)+vfScale(250, 30000); i++ {
+			var text string
+			if i < len(fixed) {
+				text = fixed[i]
+			} else {
+				var parts []string
+				for k := r.Intn(3); k > 0; k-- {
+					parts = append(parts, r.Pick(others))
+				}
+				var bs []string
+				for k := 1 + r.Intn(3); k > 0; k-- {
+					bs = append(bs, r.Pick(bodies))
+				}
+				parts = append(parts, r.Pick(creates)+r.Pick(heads)+" BEGIN "+strings.Join(bs, "; ")+"; END")
+				for k := 1 + r.Intn(2); k > 0; k-- {
+					parts = append(parts, r.Pick(others))
+				}
+				if r.Chance(20) { // a second trigger
+					parts = append(parts, "CREATE TRIGGER tr2 "+r.Pick(heads)+" BEGIN "+r.Pick(bodies)+"; END", r.Pick(others))
+				}
+				text = strings.Join(parts, r.Pick([]string{"; ", ";\n", " ; ", ";"}))
+				if r.Chance(15) {
+					text += ";"
+				}
+				if r.Chance(20) { // the whole in a transaction, closed with the keyword END or COMMIT
+					text = r.Pick([]string{"BEGIN; ", "BEGIN TRANSACTION;", "begin immediate ; "}) + strings.TrimSuffix(text, ";") + r.Pick([]string{"; END", "; COMMIT", ";end;"})
 				}
 			}
-			o := "-"
-			if len(segs) > 0 {
-				o = strings.Join(segs, "|")
+			rep.Count("keyword-named-identifiers-and-triggers")
+			checkMulti(text, true)
+			// every random() outside a piece the parser does not know must be gone
+			if !strings.Contains(text, "TEMPORARY TRIGGER") { // (its first body statement is in a piece the parser does not know)
+				st := []*proto.Statement{{Sql: text}}
+				if err := Process(st, true, true); err == nil && strings.Contains(strings.ToLower(st[0].Sql), "random()") && strings.Contains(strings.ToLower(text), "random()") {
+					rep.Fail("multi-statement-text:left:random", fmt.Sprintf("%q is replicated as %q", text, st[0].Sql), map[string]interface{}{"sql": text})
+				}
 			}
-			splitImpl = append(splitImpl, o)
-		}
-		origTexts, orig, ok := c14ParseAll(text)
-		if !ok || len(orig) < 2 {
-			rep.Count("multi:parser-rejects")
-			continue
-		}
-		rep.Count("multi-statement-text")
-		if len(origTexts) != len(strings.Split(text, ";")) {
-			rep.Count("multi-statement-text:with-empty-statements")
-		}
-		st := []*proto.Statement{{Sql: text}}
-		replay := map[string]interface{}{"sql": text}
-		if err := Process(st, true, true); err != nil {
-			rep.Fail("process-error", fmt.Sprintf("Process(%q): %v", text, err), replay)
-			continue
-		}
-		replay["replicated"] = st[0].Sql
-		outTexts, out, ok := c14ParseAll(st[0].Sql)
-		if !ok {
-			rep.Fail("multi-statement-text:output-unparsable", fmt.Sprintf("%q -> %q", text, st[0].Sql), replay)
-			continue
-		}
-		if len(out) != len(orig) {
-			rep.Fail("multi-statement-text:statements-lost", fmt.Sprintf("a text of %d statements is replicated as %d: %q -> %q", len(orig), len(out), text, st[0].Sql), replay)
-			continue
-		}
-		anyTarget := false
-		var left []string
-		hadNondet := false
-		for k := range orig {
-			bt, _ := c14Record(orig[k])
-			at, _ := c14Record(out[k])
-			if c14HasTargetCall(bt) {
-				anyTarget = true
-			} else if outTexts[k] != origTexts[k] {
-				rep.Fail("multi-statement-text:untouched-statement-reprinted", fmt.Sprintf("statement %d of %q needs no rewriting but is replicated as %q", k, text, outTexts[k]), replay)
-			}
-			var ndB []string
-			c14Nondet(bt, false, true, true, &ndB)
-			hadNondet = hadNondet || len(ndB) > 0
-			c14Nondet(at, false, true, true, &left)
-		}
-		rep.Case(text, hadNondet)
-		if len(left) > 0 {
-			rep.Fail(c14Sig("multi-statement-text:left", left, nil), fmt.Sprintf("%q is replicated as %q, still containing %v", text, st[0].Sql, left), replay)
-		}
-		if !anyTarget && st[0].Sql != text {
-			rep.Fail("multi-statement-text:changed-without-calls", fmt.Sprintf("%q -> %q", text, st[0].Sql), replay)
-		}
-		// the query / explain markers are those of the first statement, as for a single statement
-		first := []*proto.Statement{{Sql: origTexts[0]}}
-		if err := Process(first, true, true); err == nil && (first[0].ForceQuery != st[0].ForceQuery || first[0].SqlExplain != st[0].SqlExplain) {
-			rep.Fail("multi-statement-text:markers", fmt.Sprintf("%q: ForceQuery=%v SqlExplain=%v, its first statement alone gets %v %v", text, st[0].ForceQuery, st[0].SqlExplain, first[0].ForceQuery, first[0].SqlExplain), replay)
 		}
 	}
 
@@ -1091,12 +1217,15 @@ func TestVerifC14(t *testing.T) {
 		text := "SELECT " + g.exprs(1+g.r.Intn(2), 1)
 		ok := false
 		var last string
-		for attempt := 0; attempt < 4 && !ok; attempt++ {
+		conclusive := 0 // attempts in which the clock reading and the original's evaluation were close together
+		for attempt := 0; attempt < 12 && !ok && conclusive < 4; attempt++ {
 			st := []*proto.Statement{{Sql: text}}
+			t0 := time.Now()
 			if err := Process(st, true, true); err != nil {
 				break
 			}
 			orig := c14Eval(mem, text)
+			took := time.Since(t0)
 			rewr := c14Eval(mem, st[0].Sql)
 			last = fmt.Sprintf("original %q = %s ; rewritten %q = %s", text, orig, st[0].Sql, rewr)
 			if orig == "ERROR" {
@@ -1107,14 +1236,22 @@ func TestVerifC14(t *testing.T) {
 			ok = orig == rewr
 			if !ok {
 				// the pinned literal has a precision of 1e-6 day (±43 ms) and the original reads its
-				// own clock a moment later: near a second boundary the two may differ - move away from it
+				// own clock a moment later: near a second boundary the two may differ - move away from it.
+				// On a busy machine "a moment" can be long: such an attempt says nothing.
+				if took < 150*time.Millisecond {
+					conclusive++
+				} else {
+					rep.Count("meaning:attempt-inconclusive-machine-too-slow")
+				}
 				rep.Count("meaning:retry")
 				time.Sleep(170 * time.Millisecond)
 			}
 		}
 		rep.Count("meaning:original-vs-rewritten")
-		if !ok {
+		if !ok && conclusive >= 4 {
 			rep.Fail("meaning-changed", "rewritten statement does not evaluate like the original at the pinned instant: "+last, map[string]interface{}{"sql": text})
+		} else if !ok {
+			rep.Count("meaning:abandoned-under-load")
 		}
 	}
 	// meaning A': a pinned random blob has the length SQLite's randomblob would have produced
@@ -1156,39 +1293,77 @@ func TestVerifC14(t *testing.T) {
 	}
 }
 
-// c14Letters renders the scanner's tokens of a text in the model's alphabet.
-func c14Letters(text string) string {
-	var b strings.Builder
+// c14Toks renders the scanner's tokens of a text for the model: `s` the semicolon, a number any other
+// token (same kind and spelling = same number), comments skipped; `-` if there is none.
+func c14Toks(text string, ids map[string]int) string {
+	var out []string
 	sc := rsql.NewScanner(strings.NewReader(text))
 	for {
 		_, tok, lit := sc.Scan()
 		if tok == rsql.EOF {
 			break
 		}
-		switch {
-		case tok == rsql.COMMENT:
-		case tok == rsql.SEMI:
-			b.WriteByte('s')
-		case tok == rsql.CREATE:
-			b.WriteByte('c')
-		case tok == rsql.TEMP || strings.EqualFold(lit, "temporary"):
-			b.WriteByte('m')
-		case tok == rsql.TRIGGER:
-			b.WriteByte('t')
-		case tok == rsql.BEGIN:
-			b.WriteByte('b')
-		case tok == rsql.CASE:
-			b.WriteByte('k')
-		case tok == rsql.END:
-			b.WriteByte('e')
-		default:
-			b.WriteByte('o')
+		if tok == rsql.COMMENT {
+			continue
 		}
+		if tok == rsql.SEMI {
+			out = append(out, "s")
+			continue
+		}
+		key := fmt.Sprintf("%d:%s", tok, strings.ToLower(lit))
+		if _, ok := ids[key]; !ok {
+			ids[key] = len(ids) + 1
+		}
+		out = append(out, strconv.Itoa(ids[key]))
 	}
-	if b.Len() == 0 {
+	if len(out) == 0 {
 		return "-"
 	}
-	return b.String()
+	return strings.Join(out, ".")
+}
+
+// c14Pieces cuts a text at its semicolon tokens.
+func c14Pieces(text string) []string {
+	runes := []rune(text)
+	var segs []string
+	start := 0
+	sc := rsql.NewScanner(strings.NewReader(text))
+	for {
+		pos, tok, _ := sc.Scan()
+		if tok == rsql.EOF {
+			break
+		}
+		if tok == rsql.SEMI {
+			segs = append(segs, string(runes[start:pos.Offset]))
+			start = pos.Offset + 1
+		}
+	}
+	return append(segs, string(runes[start:]))
+}
+
+// c14RunFresh executes a text on a fresh in-memory database with a small schema (tables t, ev with
+// columns named begin and end, and a table named end) and returns the content afterwards.
+func c14RunFresh(text string) (string, error) {
+	db, err := sql.Open("sqlite3", ":memory:")
+	if err != nil {
+		return "", err
+	}
+	defer db.Close()
+	db.SetMaxOpenConns(1)
+	if _, err := db.Exec(`CREATE TABLE t(a, b); CREATE TABLE ev(id INTEGER PRIMARY KEY, a, begin, end); CREATE TABLE end(a);
+		INSERT INTO ev(a, begin, end) VALUES(1, 1, 9), (2, 5, 6); INSERT INTO t(a) VALUES(0)`); err != nil {
+		return "", err
+	}
+	// (bounded: row triggers that insert into their own table's source can multiply the rows)
+	ctx, cancel := context.WithTimeout(context.Background(), 20*time.Second)
+	defer cancel()
+	_, xerr := db.ExecContext(ctx, text)
+	if ctx.Err() != nil {
+		return "", ctx.Err()
+	}
+	db.Exec("COMMIT") // a text may leave a transaction open
+	return c14Eval(db, "SELECT a, b FROM t ORDER BY rowid") + " / " + c14Eval(db, "SELECT id, a, begin, end FROM ev ORDER BY id") + " / " +
+		c14Eval(db, "SELECT a FROM end ORDER BY rowid"), xerr
 }
 
 // c14ParseAll cuts a text at its semicolon tokens (scanner tokens, so not inside strings, identifiers
